@@ -7,9 +7,13 @@ import tempfile
 import time
 
 VERIF = os.path.dirname(os.path.dirname(os.path.abspath(__file__)))
-REPO = '/repo'
+# development only: VERIF_REPO / VERIF_TAG let tools/seedtest.py run a check against a scratch worktree with its own
+# work and target directories; the registered commands never set them (they check /repo itself).
+REPO = os.environ.get('VERIF_REPO', '/repo')
+TAG = os.environ.get('VERIF_TAG', '')
 DRIVER = os.path.join(VERIF, 'lean', '.lake', 'build', 'bin', 'dwdriver')
-WORK = os.path.join(VERIF, 'work')
+WORK = os.path.join(VERIF, 'work' + TAG)
+TARGET = os.path.join(VERIF, 'target' + TAG)
 
 # name -> (cargo args, model cfg bits safe/nightly/zeroize/zod)
 CONFIGS = {
@@ -33,7 +37,7 @@ def run_hook(cfg, lines, tag=''):
         os.remove(fout)
     args, _ = CONFIGS[cfg]
     env = dict(os.environ)
-    env.update(CARGO_TARGET_DIR=os.path.join(VERIF, 'target', 'hook-' + cfg),
+    env.update(CARGO_TARGET_DIR=os.path.join(TARGET, 'hook-' + cfg),
                DW_VERIF_IN=fin, DW_VERIF_OUT=fout, CARGO_NET_OFFLINE='true',
                RUSTFLAGS='--cfg derive_where_verif')
     cmd = ['cargo'] + (['+nightly'] if cfg == 'nightly' else []) + \
